@@ -434,7 +434,7 @@ Definition is_link (k : ekind) : bool :=
   match k with KSymlink _ | KHardlink _ => true | _ => false end.
 
 (* ArchiveReader::entries validation, in the order of the code. 0 accepted, 1 non-UTF-8,
-   2 no `target` prefix, 3 a non-normal component, 4 link entry (the F9 repair; [links_ok]
+   2 no `target` prefix, 3 a non-normal component, 4 link entry (the F19 repair; [links_ok]
    switches it off = the code before the repair), 5 bad checksum *)
 Definition entry_check (links_ok : bool) (e : tentry) : N :=
   match utf8_decode (te_raw e) with
